@@ -8,6 +8,8 @@ G9   fixed pins are clamped to the placement-area bounds of the same axis before
 P3   the matrix is regularised (finalize) before it is handed to the solver
 QA   axis typing over the global placer's units
 TW   X/Y twin functions agree up to the X<->Y renaming (sibling cross-check)
+CC   cell conservation in the bin hierarchy: the functions that rebuild binCells_ wholesale choose the inheriting bin from
+     the hierarchy alone, and a function that empties bins gives the cells back on every path to its exit
 """
 import re
 
@@ -16,7 +18,7 @@ from ..model import qt, loc_str, walk, inner, desugared
 from ..expr import canon, pretty, children, strip, callee_info, subterms, member_decl, ref_decl
 from ..cfg import cfg_of
 from ..qual import axis_conflicts, axis_of
-from .common import CQ, short, expand_locals, calls_to, for_loop_info
+from .common import CQ, short, expand_locals, calls_to, for_loop_info, var_write_nodes
 
 EXPLANATION = (
     "Static check on the clang-resolved AST of place_global.cpp, net_model.cpp, density_grid.cpp and density_legalizer.cpp. "
@@ -28,7 +30,12 @@ EXPLANATION = (
     "SB: in spreadCells the coordinate is dem*maxCoord + (1-dem)*minCoord with dem advanced by half the cell's demand share "
     "before and after; demand/area sums anywhere in these units accumulate in float, double or long long. G9: min/max pin "
     "positions are clamped with the area bounds of the same axis. P3: finalize() dominates setFromTriplets in "
-    "MatrixCreator::solve. QA/TW: axis typing and X/Y twin agreement.")
+    "MatrixCreator::solve. QA/TW: axis typing and X/Y twin agreement. CC: a cell that is in no bin keeps the coordinate 0 in "
+    "every exposed upper bound, so (a) in every member function that replaces binCells_ by a freshly built container, each branch "
+    "or loop condition may read (transitively) only the hierarchy description (the fields read by parentX/parentY/nbBinsX/"
+    "nbBinsY) - a choice that depends on capacities, usage or cell data can select no bin at all; (b) from a clear() of bins in "
+    "binCells_ the function exit is reachable only through a call that stores cells back (setBinCells or an assignment into "
+    "binCells_), a loop over a container proven non-empty by a dominating guard counting as executed.")
 
 DECLINED = ["containment of the solver's output in the bounding box, finiteness (floating-point behaviour of CG and of the spreading)",
             "'completes without raising an error' (search / numeric behaviour)"]
@@ -99,6 +106,7 @@ def run(ctx, rep, tier):
     rep.rule("P3", "finalize() before the solver sees the matrix", 1)
     rep.rule("QA", "axis typing over the global placer's units", 50)
     rep.rule("TW", "X/Y twins agree up to renaming", 8)
+    rep.rule("CC", "cell conservation: hierarchy-only bin choice when binCells_ is rebuilt; emptied bins are refilled on every path", 5)
     check_blend(ctx, rep)
     check_export(ctx, rep)
     check_spread(ctx, rep)
@@ -119,6 +127,227 @@ def run(ctx, rep, tier):
         else:
             rep.holds("QA", f.decl, f, "%s is axis-consistent" % f.short)
     check_twins(ctx, rep)
+    check_conservation(ctx, rep)
+
+
+# ---- CC: cell conservation ------------------------------------------------------------------
+
+HDP = CQ + "HierarchicalDensityPlacement"
+HIER_METHODS = ("parentX", "parentY", "nbBinsX", "nbBinsY", "levelX", "levelY", "nbLevelX", "nbLevelY")
+
+
+def _is_assert(x):
+    from ..expr import is_noreturn_call
+    if x.get("kind") != "ConditionalOperator":
+        return False
+    ch = children(x)
+    return len(ch) == 3 and (is_noreturn_call(ch[1]) or is_noreturn_call(ch[2]))
+
+
+def _cond_reads(ctx, func, cond):
+    """Fields read (transitively through resolved callees) by the evaluation of `cond`."""
+    tr = ctx.eff.transitive()
+    out = {}
+    for x in walk(cond):
+        k = x.get("kind")
+        if k == "MemberExpr":
+            d = member_decl(x)
+            if d is not None and d.get("kind") == "FieldDecl":
+                out.setdefault(d.get("_q"), x)
+        if k in ("CallExpr", "CXXMemberCallExpr", "CXXOperatorCallExpr", "CXXConstructExpr"):
+            _ci, fs = ctx.eff.resolve_callee(x)
+            for g in fs:
+                for q in tr.get(g.key, {}).get("reads", ()):
+                    out.setdefault(q, x)
+    return out
+
+
+def _roots_field(e, field_q):
+    """True when expression e is an access path rooted at member field_q (binCells_[..][..], binCells_ ...)."""
+    s = strip(e)
+    while s is not None and s.get("kind"):
+        k = s.get("kind")
+        if k == "MemberExpr":
+            d = member_decl(s)
+            if d is not None and d.get("kind") == "FieldDecl":
+                return d.get("_q") == field_q
+            ch = children(s)
+            s = strip(ch[0]) if ch else None
+        elif k in ("CXXOperatorCallExpr",):
+            ch = children(s)
+            s = strip(ch[1]) if len(ch) > 1 else None
+        elif k in ("ArraySubscriptExpr", "CXXMemberCallExpr"):
+            ch = children(s)
+            s = strip(ch[0]) if ch else None
+        else:
+            return False
+    return False
+
+
+def check_conservation(ctx, rep):
+    prog = ctx.prog
+    bc = HDP + "::binCells_"
+    tr = ctx.eff.transitive()
+    hier = set()
+    found = 0
+    for m in HIER_METHODS:
+        for f in prog.funcs.values():
+            if f.cls == HDP and f.name == m:
+                hier |= set(tr.get(f.key, {}).get("reads", ()))
+                found += 1
+    if found < 4 or not hier:
+        rep.unknown("CC", None, None, "hierarchy accessors", "parentX/parentY/nbBinsX/nbBinsY not found in %s" % short(HDP))
+        return
+    if bc in hier:
+        rep.unknown("CC", None, None, "hierarchy accessors", "the hierarchy accessors read binCells_: the rule's split between hierarchy and data no longer exists")
+        return
+    # (a) wholesale rebuilds
+    n_rebuild = 0
+    for f in prog.all_funcs(with_lambdas=False):
+        if f.body is None or f.decl.get("kind") in ("CXXConstructorDecl",) or not (f.cls or "").startswith(CQ):
+            continue
+        whole = []
+        for x in walk(f.body):
+            if x.get("kind") == "CXXOperatorCallExpr" and callee_info(x) and callee_info(x)["name"] == "operator=":
+                ch = children(x)
+                if len(ch) >= 3:
+                    l = strip(ch[1])
+                    d = member_decl(l) if l.get("kind") == "MemberExpr" else None
+                    if d is not None and d.get("_q") == bc:
+                        whole.append((x, ch[2]))
+        if not whole:
+            continue
+        n_rebuild += 1
+        conds = []
+        for x in walk(f.body):
+            k = x.get("kind")
+            ch = [c for c in inner(x) if isinstance(c, dict)]
+            if k == "IfStmt":
+                i = (1 if x.get("hasInit") else 0) + (1 if x.get("hasVar") else 0)
+                conds.append(ch[i])
+            elif k == "WhileStmt":
+                conds.append(ch[-2])
+            elif k == "DoStmt":
+                conds.append(ch[1])
+            elif k == "ForStmt" and len(ch) >= 5 and ch[2].get("kind"):
+                conds.append(ch[2])
+            elif k == "ConditionalOperator" and not _is_assert(x):
+                conds.append(children(x)[0])
+            elif k == "SwitchStmt":
+                conds.append(ch[(1 if x.get("hasInit") else 0) + (1 if x.get("hasVar") else 0)])
+        bad = []
+        for c in conds:
+            par = c.get("_p")
+            while par is not None and par is not f.body and not _is_assert(par):
+                par = par.get("_p")
+            if par is not None and _is_assert(par):
+                continue
+            reads = _cond_reads(ctx, f, c)
+            extra = {q: n for q, n in reads.items() if q not in hier}
+            if bc in extra and canon(c)[0] == "call" and canon(c)[1] == "empty":
+                extra.pop(bc)
+            if extra:
+                bad.append((c, extra))
+        for c, extra in bad:
+            rep.violation("CC", c, f, "%s rebuilds binCells_ under a condition that reads %s" % (f.short, ", ".join(sorted(short(q) for q in extra))),
+                          "the bin that inherits the cells must be chosen by the hierarchy alone; a data-dependent test can reject every bin and the cells stay at coordinate 0",
+                          key="%s|data-dependent rebuild" % f.short)
+        if not bad:
+            rep.holds("CC", whole[0][0], f, "%s rebuilds binCells_; its %d branch/loop conditions read only the hierarchy" % (f.short, len(conds)))
+    if n_rebuild < 4:
+        rep.unknown("CC", None, None, "wholesale rebuilds of binCells_", "expected the four coarsen/refine functions, found %d" % n_rebuild)
+    # (b) emptied bins are refilled on every path
+    n_clear = 0
+    for f in prog.all_funcs(with_lambdas=False):
+        if f.body is None or not (f.cls or "").startswith(CQ):
+            continue
+        clears = []
+        for x in walk(f.body):
+            if x.get("kind") == "CXXMemberCallExpr":
+                ci = callee_info(x)
+                if ci and ci["name"] == "clear" and _roots_field(children(x)[0], bc):
+                    clears.append(x)
+        if not clears:
+            continue
+        g = cfg_of(f)
+        restore = []
+        for x in walk(f.body):
+            k = x.get("kind")
+            if k == "CXXMemberCallExpr":
+                _ci, fs = ctx.eff.resolve_callee(x)
+                if any(bc in tr.get(h.key, {}).get("writes", ()) for h in fs):
+                    restore.append(x)
+            elif k == "CXXOperatorCallExpr" and callee_info(x) and callee_info(x)["name"] == "operator=":
+                ch = children(x)
+                if len(ch) >= 3 and _roots_field(ch[1], bc):
+                    restore.append(x)
+        avoid = []
+        for x in restore:
+            cn = g.node_for(x)
+            if cn is not None:
+                avoid.append(cn)
+            # a loop over a container proven non-empty executes its body at least once
+            lp = x.get("_p")
+            while lp is not None and lp is not f.body:
+                if lp.get("kind") in ("ForStmt", "CXXForRangeStmt") and _nonempty_loop(ctx, f, g, lp):
+                    for n in g.nodes:
+                        if n.kind == "join" and n.ast is lp:
+                            avoid.append(n)
+                lp = lp.get("_p")
+        for x in clears:
+            n_clear += 1
+            cn = g.node_for(x)
+            reach = g.reachable_from(cn.succ, avoid=avoid)
+            if g.exit.idx in reach:
+                # name an offending exit
+                rets = [n for n in g.nodes if n.kind == "stmt" and (n.ast or {}).get("kind") == "ReturnStmt" and n.idx in reach]
+                where = loc_str(rets[0].ast) if rets else "end of function"
+                rep.violation("CC", x, f, "%s empties bins of binCells_ and can leave through %s without storing the cells back" % (f.short, where),
+                              "a path from clear() to the exit avoids every call that writes binCells_", key="%s|clear without refill" % f.short)
+            else:
+                rep.holds("CC", x, f, "%s: every path from clear() to the exit stores cells back (%d restoring call sites)" % (f.short, len(restore)))
+    if n_clear < 1:
+        rep.unknown("CC", None, None, "clear() of bins", "no function empties bins of binCells_ any more: the refill rule has no instance")
+
+
+def _nonempty_loop(ctx, f, g, lp):
+    """The loop `for (i = 0; i < X.size(); ++i)` / `for (e : X)` runs at least once: a dominating branch edge says X.empty() is false
+    (or X.size() compared unequal to / greater than 0) and X is a local that is not modified afterwards."""
+    if lp.get("kind") == "ForStmt":
+        info = for_loop_info(lp)
+        if not info or info["lo"] != ("lit", "0") or info["hi"] is None:
+            return False
+        hi = info["hi"]
+        if not (hi[0] == "call" and hi[1] == "size" and len(hi) == 3):
+            return False
+        cont = hi[2]
+    else:
+        ch = [c for c in inner(lp) if isinstance(c, dict)]
+        rng = ch[1] if len(ch) > 1 else None
+        if not rng or not rng.get("kind"):
+            return False
+        init = children(rng)[0] if rng.get("kind") == "DeclStmt" and children(rng) else None
+        vd = [d for d in inner(rng) if d.get("kind") == "VarDecl"] if rng.get("kind") == "DeclStmt" else []
+        if not vd or not children(vd[0]):
+            return False
+        cont = canon(children(vd[0])[-1])
+    if cont[0] != "var":
+        return False
+    head = [n for n in g.nodes if n.kind == "join" and n.ast is lp]
+    if not head:
+        return False
+    for ast, val, en in g.dom_edges(head[0]):
+        c = canon(ast)
+        if c[0] == "call" and c[1] == "empty" and len(c) == 3 and c[2] == cont and val is False:
+            ws = [w for w in var_write_nodes(ctx, f, [cont[1]])]
+            stable = True
+            for w in ws:
+                wn = g.node_for(w)
+                if wn is None or (wn.idx in g.reachable_from([en]) and g.can_reach(wn, head[0])):
+                    stable = False
+            if stable:
+                return True
+    return False
 
 
 def check_blend(ctx, rep):
